@@ -3,7 +3,7 @@
    SMP/FeasSound.v (the boolean clause), SMP/FeasStep.v (state.step, middleware, reachable states). *)
 From Coq Require Import List ZArith Bool.
 From JSL Require Import Base.Res SM.Types SM.Util SM.Handler SM.Step SM.Middleware SM.Inv SM.Example
-  SMP.Clock SMP.ClockMain SMP.FeasView SMP.Feasible SMP.FeasSound SMP.FeasStep Dsl.Doc Dsl.DocP.
+  SMP.Clock SMP.ClockMain SMP.FeasView SMP.Feasible SMP.FeasSound SMP.FeasStep Dsl.Doc Dsl.DocP SM.ExampleShift SMP.StepInv SMP.LiftSide SMP.OutputDone SMP.Reflect SMP.LiftProv SMP.ProvBatch.
 Import ListNotations.
 
 (* feasible_b (SM/Inv.v), the clause the monitors evaluate on every state of the implementation: per job
@@ -95,6 +95,49 @@ Proof.
 Qed.
 Print Assumptions C01_from_document_partial.
 
+(* C01 WITHOUT any side condition for every instance whose machine post-buffers are unordered (flex_post_b: FLEX,
+   the compiler's default for every buffer): every state the environment reaches from an initial state (jobs not
+   started, machines and AGVs idle and empty, no unfinished job in an output buffer, no AGV waiting on a time
+   dependency: all boolean, all evaluated on the compiled initial states by the check) under ANY accept/decline
+   sequence of ANY length, any oracle, fuel and truncation setting is a feasible schedule - and so is every
+   micro-state. The side condition is DERIVED (SMP/Prov.v, LiftProv.v, ProvBatch.v): every -> TRANSIT transition the
+   simulator applies was created in the first state of its batch for the AGV's own claim and a job lying in a
+   post- or standalone buffer, and no transition applied before it in that batch can change either fact. For
+   ordered (FIFO/LIFO/DUMMY) machine post-buffers the statement above (C01_reachable_partial) remains. *)
+Theorem C01_reachable_flex :
+  forall (sigma : oracle) (i : inst) (fuel : nat) (x0 : state) (joker0 : Z) (ta : bool) (r : result) (m : mw),
+    inst_nonneg_b i = true -> flex_post_b i = true ->
+    clock_b x0 = true -> wfs_b i x0 = true -> fresh2_b i x0 = true -> nodep_b x0 = true ->
+    reach sigma i fuel x0 joker0 ta r m -> feasible_b i (r_x r) = true.
+Proof. intros sigma i fuel x0 joker0 ta r m Hnn Hf C W Fr D H. eapply flex_reachable; eauto. Qed.
+Print Assumptions C01_reachable_flex.
+
+Theorem C01_micro_states_flex :
+  forall (sigma : oracle) (i : inst) (fuel : nat) (x0 : state) (joker0 : Z) (ta : bool) (r : result) (m : mw)
+         (a : Z) (r' : result) (m' : mw) (lg : mlog),
+    inst_nonneg_b i = true -> flex_post_b i = true ->
+    clock_b x0 = true -> wfs_b i x0 = true -> fresh2_b i x0 = true -> nodep_b x0 = true ->
+    reach sigma i fuel x0 joker0 ta r m -> mw_step sigma i fuel r m a = MOk r' m' lg ->
+    forall tr y, In (tr, y) lg -> feasible_b i y = true /\ transit_side_b tr y = true.
+Proof.
+  intros sigma i fuel x0 joker0 ta r m a r' m' lg Hnn Hf C W Fr D H Hm tr y Hin.
+  destruct (flex_micro_states sigma i Hnn Hf _ _ _ _ _ _ _ _ _ _ C W Fr D H Hm _ _ Hin) as [A [_ [_ [_ S]]]].
+  split; [exact A|]. apply side2_parts in S. tauto.
+Qed.
+Print Assumptions C01_micro_states_flex.
+
+(* every run is a run with the side condition: the partial theorems above apply to every run of such instances *)
+Theorem C01_side_condition_derived_flex :
+  forall (sigma : oracle) (i : inst) (fuel : nat) (x0 : state) (joker0 : Z) (ta : bool) (r : result) (m : mw),
+    inst_nonneg_b i = true -> flex_post_b i = true ->
+    clock_b x0 = true -> wfs_b i x0 = true -> fresh2_b i x0 = true -> nodep_b x0 = true ->
+    reach sigma i fuel x0 joker0 ta r m -> reachS2 sigma i fuel x0 joker0 ta r m.
+Proof.
+  intros sigma i fuel x0 joker0 ta r m Hnn Hf C W Fr D H. apply NO_iff_clock_b in C.
+  eapply reach_side2; eauto. apply J_init; auto.
+Qed.
+Print Assumptions C01_side_condition_derived_flex.
+
 (* the executable side condition implies the one in the theorems *)
 Theorem C01_sides_reflect : forall lg, sides_b lg = true -> sides lg.
 Proof. exact sides_b_sound. Qed.
@@ -111,3 +154,17 @@ Example C01_reachable_nontrivial :
               /\ feasible_b ex_inst (r_x r) = true
               /\ existsb (fun jb => existsb (is_ostate ODone) (j_ops jb)) (s_jobs (r_x r)) = true.
 Proof. vm_compute. eexists; eexists; repeat split. Qed.
+
+(* non-vacuity of the flex theorems: a compiled instance with AGV, outages and unordered post-buffers satisfies
+   every hypothesis, and its always-accept episode is a run (reach) that ends with all work done *)
+Example C01_flex_hypotheses_satisfiable :
+  inst_nonneg_b sh_inst = true /\ flex_post_b sh_inst = true /\ clock_b sh_init0 = true /\ wfs_b sh_inst sh_init0 = true
+  /\ fresh2_b sh_inst sh_init0 = true /\ nodep_b sh_init0 = true.
+Proof. vm_compute. repeat split. Qed.
+Example C01_flex_run_nontrivial :
+  exists r m, reach sh_sigma sh_inst 200 sh_init0 3%Z true r m
+              /\ existsb (fun jb => existsb (is_ostate ODone) (j_ops jb)) (s_jobs (r_x r)) = true.
+Proof.
+  destruct (runG sh_sigma sh_inst side2 200 sh_init0 3%Z true [1;1;1;1]%Z) as [[r m]|] eqn:E; [|vm_compute in E; discriminate].
+  exists r, m. split; [eapply reachG_reach; eapply runG_reach; exact E|]. vm_compute in E. inversion E; subst. vm_compute. reflexivity.
+Qed.
